@@ -1515,7 +1515,7 @@ fn run(v: &Value) -> Result<String, String> {
             fn class(code: ErrorCode) -> Out { match code { ErrorCode::MethodNotFound => Out::NotFound, ErrorCode::InvalidBody => Out::InvalidBody, other => Out::Other(other as u32) } }
             // ---- operation alphabet ----
             #[derive(Clone, Debug)]
-            enum Op { Req(&'static str, Option<Value>), Merge(Value) }
+            enum Op { Req(&'static str, Option<Value>), Merge(Value), MergeAt(&'static str, Value), Register(&'static str, Value) }
             let pointers = ["", "/", "/a", "/a/b", "/a/n", "/arr/1", "/arr/7", "/arr/x", "/s/t", "/c~1d", "/t~0", "/u~01", "/f", "/a/g~1h", "/zz/y", "/a~", "/a~2b", "a", "/a/"];
             let mut ops: Vec<Op> = Vec::new();
             for p in pointers { ops.push(Op::Req(p, None)); }
@@ -1524,6 +1524,8 @@ fn run(v: &Value) -> Result<String, String> {
             ops.push(Op::Req("/a", Some(json!("str"))));
             ops.push(Op::Req("/arr", Some(json!({"o": 1}))));
             ops.push(Op::Merge(json!({"a": 9, "q": [1]})));
+            for p in ["/a", "/c~1d", "/u~01", "/t~0", "/arr", "/a/b", "/nope", "", "a"] { ops.push(Op::MergeAt(p, json!({"m": 1}))); }
+            for p in ["/a/n", "/c~1d/k", "/u~01", "/s/t", "/new/deep", "x~0y"] { ops.push(Op::Register(p, json!(3))); }
             let n = ops.len();
             let probe: Vec<&str> = pointers.iter().copied().filter(|p| tokens(p).is_ok()).collect();
             let mut idx = vec![0usize; len];
@@ -1564,6 +1566,40 @@ fn run(v: &Value) -> Result<String, String> {
                                     }
                                 }
                             }
+                        }
+                        Op::MergeAt(p, obj) => {
+                            let Value::Object(o) = obj else { unreachable!() };
+                            // registration paths may omit the leading slash
+                            let norm = if p.is_empty() || p.starts_with('/') { p.to_string() } else { format!("/{p}") };
+                            let got = reg.merge_at(p, o.clone()).map_err(|e| class(e.code()));
+                            let want: Result<(), Out> = match tokens(&norm) {
+                                Err(()) => Err(Out::NotFound),
+                                Ok(t) if t.is_empty() => { if !model.doc.is_object() { model.doc = json!({}); } for (k, x) in o.clone() { model.doc.as_object_mut().unwrap().insert(k, x); } Ok(()) }
+                                Ok(t) => match get_mut(&mut model.doc, &t) { Some(Value::Object(m)) => { for (k, x) in o.clone() { m.insert(k, x); } Ok(()) } _ => Err(Out::NotFound) },
+                            };
+                            if got != want { return Err(format!("{}: merge_at({p:?}) answered {got:?}; a JSON document answers {want:?}", ctx())); }
+                        }
+                        Op::Register(p, val) => {
+                            let norm = if p.is_empty() || p.starts_with('/') { p.to_string() } else { format!("/{p}") };
+                            let got = reg.register_value(p, val.clone()).map_err(|e| class(e.code()));
+                            let want: Result<(), Out> = match tokens(&norm) {
+                                Err(()) => Err(Out::NotFound),
+                                Ok(t) if t.is_empty() => { model.doc = val.clone(); Ok(()) }
+                                Ok(t) => {
+                                    // "creating missing object parents": a non-object on the way is replaced by an object
+                                    if !model.doc.is_object() { model.doc = json!({}); }
+                                    let mut cur = &mut model.doc;
+                                    for k in &t[..t.len() - 1] {
+                                        let m = cur.as_object_mut().unwrap();
+                                        let e = m.entry(k.clone()).or_insert_with(|| json!({}));
+                                        if !e.is_object() { *e = json!({}); }
+                                        cur = e;
+                                    }
+                                    cur.as_object_mut().unwrap().insert(t[t.len() - 1].clone(), val.clone());
+                                    Ok(())
+                                }
+                            };
+                            if got != want { return Err(format!("{}: register_value({p:?}) answered {got:?}; a JSON document answers {want:?}", ctx())); }
                         }
                         Op::Merge(obj) => {
                             let Value::Object(o) = obj else { unreachable!() };
@@ -1800,6 +1836,46 @@ fn run(v: &Value) -> Result<String, String> {
                     if i != Execution::Inline { return Err(format!("{name}: a with_json route reports execution {i:?}; it must stay Inline")); }
                     cases += 1;
                 }
+            }
+            // with the cap removed (limit 0) blocking handlers still run off the reader: five park at once and an inline request is answered
+            {
+                let running = Arc::new(AtomicUsize::new(0));
+                let gate = Arc::new(Gate { released: Mutex::new(HashMap::new()), cv: Condvar::new() });
+                let (r2, g2) = (running.clone(), gate.clone());
+                let router = Router::new()
+                    .with_json_blocking("/hold", move |v| {
+                        let key = v["key"].as_u64().unwrap_or(0);
+                        r2.fetch_add(1, Ordering::SeqCst);
+                        let mut rel = g2.released.lock().unwrap();
+                        while !rel.get(&key).copied().unwrap_or(false) { rel = g2.cv.wait(rel).unwrap(); }
+                        Ok(json!({"key": key}))
+                    })
+                    .with_json("/ping", |_| Ok(json!("pong")));
+                let res: Result<(), String> = rt.block_on(async {
+                    let listener = tokio::net::TcpListener::bind(("127.0.0.1", 0)).await.map_err(|e| e.to_string())?;
+                    let addr = listener.local_addr().unwrap();
+                    let shared = WebSocketServer::new(router).with_offreader_limit(0).into_shared();
+                    let server_task = tokio::spawn(async move { loop { let Ok((stream, _)) = listener.accept().await else { break }; let shared = shared.clone(); tokio::spawn(async move { if let Ok(ws) = WebSocketServer::accept(stream, "/repe").await { let _ = shared.serve_connection(ws).await; } }); } });
+                    let client = WebSocketClient::connect(&format!("ws://{addr}/repe")).await.map_err(|e| e.to_string())?;
+                    let mut hs = Vec::new();
+                    for k in 0..5u64 { let c = client.clone(); hs.push(tokio::spawn(async move { c.call_json("/hold", &json!({"key": k})).await })); }
+                    let t0 = std::time::Instant::now();
+                    while running.load(Ordering::SeqCst) < 5 {
+                        if t0.elapsed() > Duration::from_secs(3) {
+                            for k in 0..5u64 { gate.released.lock().unwrap().insert(k, true); } gate.cv.notify_all();
+                            return Err(format!("unlimited cap: only {} of 5 concurrent blocking handlers are running after 3 s: they run on the reader, one at a time", running.load(Ordering::SeqCst)));
+                        }
+                        tokio::time::sleep(Duration::from_millis(5)).await;
+                    }
+                    let pong = tokio::time::timeout(Duration::from_secs(3), client.call_json("/ping", &json!({}))).await;
+                    for k in 0..5u64 { gate.released.lock().unwrap().insert(k, true); } gate.cv.notify_all();
+                    match pong { Ok(Ok(v)) if v == json!("pong") => {}, other => return Err(format!("unlimited cap: an inline /ping behind five parked blocking handlers got {other:?}: the reader is blocked")) }
+                    for h in hs { let _ = tokio::time::timeout(Duration::from_secs(5), h).await; }
+                    drop(client); server_task.abort();
+                    Ok(())
+                });
+                res?;
+                cases += 1;
             }
             // parked handler threads may outlive a failing scenario: the runtime is shut down in the background at the end
             let outcome: Result<(), String> = (|| {
